@@ -78,9 +78,13 @@ def new_group_block(prog, rep, rule):
         inner, reshaped_first = strip2d(e.func.value) if isinstance(e, ast.Call) and isinstance(e.func, ast.Attribute) and e.func.attr == "astype" else (None, False)
         if inner is not None and len(e.args) == 1 and unparse(e.args[0]) in INTS and unparse(inner) == mv:
             return {"seen": 0, "unseen": 1}, two_d or reshaped_first
+        if inner is not None and len(e.args) == 1 and unparse(e.args[0]) in INTS and unparse(inner) in (f"~{mv}", f"np.logical_not({mv})"):
+            return {"seen": 1, "unseen": 0}, two_d or reshaped_first
         if isinstance(e, ast.Call) and dotted(e.func) == "np.where" and len(e.args) == 3 and unparse(e.args[0]) == mv \
-                and [const_value(a, None) for a in e.args[1:]] in ([1, 0],):
-            return {"seen": 0, "unseen": 1}, two_d
+                and all(isinstance(const_value(a, None), int) and not isinstance(const_value(a, None), bool) for a in e.args[1:]):
+            return {"seen": const_value(e.args[2]), "unseen": const_value(e.args[1])}, two_d
+        if isinstance(e, ast.Call) and dotted(e.func) in ("np.ones", "np.ones_like"):
+            return {"seen": 1, "unseen": 1}, two_d or (bool(e.args) and isinstance(e.args[0], ast.Tuple))
         if isinstance(e, ast.Call) and dotted(e.func) in ("np.asarray", "np.array") and e.args and unparse(e.args[0]) == mv \
                 and any(k.arg == "dtype" and unparse(k.value) in INTS for k in e.keywords):
             return {"seen": 0, "unseen": 1}, two_d
